@@ -140,7 +140,12 @@ def evaluate(case, acc, seed_for_forms):
     results = {}
     for mode in (True, False):
         before = acc.counters["c07_judged"]
-        o1, m1 = run(DiagramRule(should_only_rule=mode).from_file(Path(short)).with_base_module(BASE), ev)
+        r1 = DiagramRule(should_only_rule=mode)
+        if mode and rnd.random() < 0.5:
+            r1 = DiagramRule()  # the documented default mode
+            r1.__dict__["_pta_intent_should_only"] = True
+            acc.count("diagram_rules_in_default_mode")
+        o1, m1 = run(r1.from_file(Path(short)).with_base_module(BASE), ev)
         o2, m2 = run(DiagramRule(should_only_rule=mode).from_file(Path(fq)).base_module_included_in_module_names(), ev)
         acc.evaluated(2)
         acc.count("twin_pairs")
